@@ -102,7 +102,8 @@ def single_threaded_edges(world, E):
         if label != "ADMIN":
             continue
         f = P.functions[n]
-        reach_create = [c for c in f.calls() if c.callee and (c.callee in creators or (c.callee in P.functions and P.reachable_functions([c.callee]) & creators))]
+        reach_create = [c for c in f.calls() if c.callee and (c.callee == "pthread_create" or c.callee in creators or
+                                                              (c.callee in P.functions and P.reachable_functions([c.callee]) & creators))]
         for c in f.calls():
             if not c.callee or c in reach_create:
                 continue
